@@ -24,12 +24,23 @@ Definition Rel (A : amsg) (r : recorder) : Prop :=
   am_mode A = Standard /\ am_an A = map q2a (rc_an r) /\ am_ns A = map q2a (rc_ns r).
 (* exact: nothing omitted so far *)
 Definition RelE (A : amsg) (r : recorder) : Prop := Rel A r /\ am_ar A = map q2a (rc_ar r).
-(* the additional section: a mandatory part M in both, then a sub-selection X of the idealised optional tail O *)
+(* a record whose owner is at/below the owner of some authority record (in particular: referral glue) *)
+Definition in_bailiwick (ns : list qrr) (q : qrr) : Prop :=
+  exists n, In n ns /\ eq_or_subdomain_of (q_owner q) (q_owner n) = true.
+(* the additional section: a kept part M in both, then a sub-selection X of the idealised optional tail O;
+   no record of the optional tail is in-bailiwick *)
 Definition RelO (A : amsg) (r : recorder) : Prop :=
-  Rel A r /\ exists M X O, am_ar A = M ++ X /\ map q2a (rc_ar r) = M ++ O /\ Sub X O.
+  Rel A r /\ exists M X Oq, am_ar A = M ++ X /\ map q2a (rc_ar r) = M ++ map q2a Oq /\ Sub X (map q2a Oq) /\
+                            Forall (fun q => ~ in_bailiwick (rc_ns r) q) Oq.
 
 Lemma RelE_O A r : RelE A r -> RelO A r.
-Proof. intros [H E]. split; [exact H|]. exists (am_ar A), [], []. rewrite !app_nil_r. split; [reflexivity|]. split; [congruence|constructor]. Qed.
+Proof.
+  intros [H E]. split; [exact H|]. exists (am_ar A), [], []. cbn [map]. rewrite !app_nil_r.
+  split; [reflexivity|]. split; [congruence|]. split; constructor.
+Qed.
+
+Lemma RelE_secs A r r1 : RelE A r -> rc_an r1 = rc_an r -> rc_ns r1 = rc_ns r -> rc_ar r1 = rc_ar r -> RelE A r1.
+Proof. intros [(M & An & Ns) Ar] E1 E2 E3. unfold RelE, Rel. rewrite E1, E2, E3. auto. Qed.
 
 Lemma RelE_add A r s l : RelE A r ->
   RelE (add_rrs A (sec_of s) (map q2a l)) (rec_add s l r).
@@ -39,21 +50,6 @@ Qed.
 
 Lemma RelE_flags A r aa tc rc : RelE A r -> RelE A (mk_rec aa tc rc (rc_an r) (rc_ns r) (rc_ar r)).
 Proof. intros H. exact H. Qed.
-
-Lemma RelO_ext A A' r X O : RelE A r -> ArExt A A' X -> Sub X (map q2a O) -> RelO A' (rec_add SAr O r).
-Proof.
-  intros [(M & An & Ns) Ar] (e1 & e2 & e3 & e4 & e5) HS. split; [unfold Rel, rec_add; cbn; repeat split; congruence|].
-  exists (am_ar A), X, (map q2a O). split; [exact e5|]. split; [unfold rec_add; cbn; rewrite map_app, Ar; reflexivity|exact HS].
-Qed.
-
-(* mandatory records first, then the optional tail *)
-Lemma RelO_ext2 A A' r Mq X O : RelE A r -> ArExt A A' (map q2a Mq ++ X) -> Sub X (map q2a O) ->
-  RelO A' (rec_add SAr O (rec_add SAr Mq r)).
-Proof.
-  intros [(M & An & Ns) Ar] (e1 & e2 & e3 & e4 & e5) HS. split; [unfold Rel, rec_add; cbn; repeat split; congruence|].
-  exists (am_ar A ++ map q2a Mq), X, (map q2a O). split; [rewrite e5, app_assoc; reflexivity|].
-  split; [unfold rec_add; cbn; rewrite !map_app, Ar; reflexivity|exact HS].
-Qed.
 
 Section Abs.
 Variable req : N -> N -> bytes -> bytes -> bool.
@@ -157,6 +153,27 @@ Lemma flat_addr_qs_rrs sbc (l : list (nat * zname)) :
   map q2a (flat_map (fun t => addr_qs (snd t) sbc) l) = flat_map (fun t => addr_rrs z (snd t) sbc) l.
 Proof. induction l as [|t l IH]; [reflexivity|]. cbn [flat_map]. rewrite map_app, IH, addr_qs_rrs. reflexivity. Qed.
 
+
+Lemma addr_qs_owner owner sbc q : In q (addr_qs owner sbc) -> q_owner q = owner.
+Proof.
+  unfold addr_qs. destruct (zl (zone_lookup_addrs z owner false sbc)) as [[a aaaa sos|c ns| |]|]; try (intros []).
+  intros H. apply in_app_or in H. destruct H as [H|H].
+  - destruct a as [[t rds]|]; [|destruct H]. apply in_map_iff in H as (rd & <- & _). reflexivity.
+  - destruct (z_class z =? ZoneConsts.CLASS_IN)%N; [|destruct H]. destruct aaaa as [[t rds]|]; [|destruct H].
+    apply in_map_iff in H as (rd & <- & _). reflexivity.
+Qed.
+
+Lemma referral_names_adds child : forall rds idx glues adds, referral_names child rds idx = Ok (glues, adds) ->
+  forall i nm, In (i, nm) adds -> eq_or_subdomain_of nm child = false.
+Proof.
+  induction rds as [|rd rds IH]; intros idx glues adds; cbn [referral_names].
+  - intros H. inversion H; subst. intros i nm [].
+  - destruct (read_name_from_rdata rd 0) as [n|e|]; cbn [bind]; try discriminate.
+    destruct (referral_names child rds (S idx)) as [[g1 a1]|e|] eqn:Ern; cbn [bind]; try discriminate.
+    destruct (eq_or_subdomain_of n child) eqn:En; intros H; inversion H; subst; intros i nm Hin.
+    + eapply IH; eauto.
+    + destruct Hin as [E|Hin]; [inversion E; subst; exact En|eapply IH; eauto].
+Qed.
 
 (* ---------------------------------------------------------------- both runs, function by function *)
 Variable Pop : wop -> Prop.
@@ -286,11 +303,11 @@ Proof.
 Qed.
 
 (* ---- a positive answer *)
-Lemma found_C h hs hr owner ty rs d g A r : StA d g A -> RelE A r -> good_name owner -> single_good Pz0 ty rs ->
+Lemma found_C h hs hr owner ty rs d g A r : StA d g A -> RelE A r -> rc_ns r = [] -> good_name owner -> single_good Pz0 ty rs ->
   hint_agrees (d_regs d) h hs -> hs_contract (d_regs d) g hs owner ->
   QC d g RelO (add_found w_iface z h owner ty rs (d_w d)) (add_found rec_iface z hr owner ty rs r).
 Proof.
-  intros HS HRel Gn Gs Hh Hc. pose proof HRel as [(Hm & Han & Hns) Har].
+  intros HS HRel Hns0 Gn Gs Hh Hc. pose proof HRel as [(Hm & Han & Hns) Har].
   pose proof (found_A req apex cls R z Hinv HR Hclass Pop Hpop_rrset d0 g0 A0 h hs owner ty rs d g A HS Hm Gn Gs Hh Hc) as Q.
   destruct (add_found w_iface z h owner ty rs (d_w d)) as [[u w']|e|] eqn:Ef; cbn [QSA QC] in Q |- *; auto.
   destruct Q as (d' & g' & A' & HS' & Hw' & F & Hm' & Ean & Ens & (X & Ear & HsubX)).
@@ -303,16 +320,17 @@ Proof.
   destruct u. eexists d', g', A', _. split; [exact HS'|]. split; [exact Hw'|]. split; [exact F|]. split; [exact Er|].
   split.
   - unfold Rel, rec_add. cbn. rewrite map_app, q2a_map. repeat split; congruence.
-  - exists (am_ar A), X, (map q2a (addl_qs ty (snd rs))). split; [exact Ear|]. split.
+  - exists (am_ar A), X, (addl_qs ty (snd rs)). split; [exact Ear|]. split; [|split].
     + unfold rec_add. cbn. rewrite map_app. congruence.
     + rewrite addl_qs_rrs. exact HsubX.
+    + apply Forall_forall. intros q _ (n & Hn & _). unfold rec_add in Hn. cbn in Hn. rewrite Hns0 in Hn. destruct Hn.
 Qed.
 
 (* ---- a referral *)
-Lemma referral_C child ns d g A r : StA d g A -> RelE A r -> good_name child -> Forall (Pz0 2%N) (snd ns) ->
+Lemma referral_C child ns d g A r : StA d g A -> RelE A r -> rc_ns r = [] -> good_name child -> Forall (Pz0 2%N) (snd ns) ->
   QC d g RelO (do_referral w_iface z child ns (d_w d)) (do_referral rec_iface z child ns r).
 Proof.
-  intros HS HRel Gc GP. pose proof HRel as [(Hm & Han & Hns) Har].
+  intros HS HRel Hns0 Gc GP. pose proof HRel as [(Hm & Han & Hns) Har].
   pose proof (referral_A req apex cls R z Hinv HR Hclass Pop Hpop_rrset d0 g0 A0 child ns d g A HS Hm Gc GP) as Q.
   destruct (do_referral w_iface z child ns (d_w d)) as [[u w']|e|] eqn:Ef; cbn [QSA QC] in Q |- *; auto.
   destruct Q as (d' & g' & A' & HS' & Hw' & F & Hm' & Ean & Ens & (X & Ear & HsubX)).
@@ -320,15 +338,19 @@ Proof.
   unfold do_referral in Ef |- *. rewrite rec_add_rrset. cbn [lift_addv].
   destruct (wi_add_rrset w_iface SNs QhNone child ZoneConsts.TYPE_NS (z_class z) (fst ns) (snd ns) true (d_w d)) as [[v w1]|[e w1]|]; cbn [lift_addv] in Ef; try discriminate.
   unfold glue_rrs, opt_rrs in *.
-  destruct (referral_names child (snd ns) 0) as [[glues adds]|e|]; try discriminate.
+  destruct (referral_names child (snd ns) 0) as [[glues adds]|e|] eqn:Ern; try discriminate.
   rewrite rec_glue_loop, rec_optional_loop.
   destruct u. eexists d', g', A', _. split; [exact HS'|]. split; [exact Hw'|]. split; [exact F|]. split; [reflexivity|].
   split.
   - unfold Rel, rec_add. cbn. rewrite map_app, q2a_map. repeat split; congruence.
-  - exists (am_ar A ++ flat_map (fun t => addr_rrs z (snd t) true) glues), X, (map q2a (flat_map (fun t => addr_qs (snd t) true) adds)).
-    split; [rewrite Ear, app_assoc; reflexivity|]. split.
+  - exists (am_ar A ++ flat_map (fun t => addr_rrs z (snd t) true) glues), X, (flat_map (fun t => addr_qs (snd t) true) adds).
+    split; [rewrite Ear, app_assoc; reflexivity|]. split; [|split].
     + unfold rec_add. cbn. rewrite !map_app, Har. rewrite (flat_addr_qs_rrs true glues). reflexivity.
     + rewrite flat_addr_qs_rrs. exact HsubX.
+    + apply Forall_forall. intros q Hq (n & Hn & Hsub).
+      apply in_flat_map in Hq as ([i nm] & Hin & Hq). cbn [snd] in Hq. apply addr_qs_owner in Hq.
+      unfold rec_add in Hn. cbn in Hn. rewrite Hns0 in Hn. cbn [app] in Hn. apply in_map_iff in Hn as (rd & <- & _). cbn [q_owner] in Hsub.
+      rewrite Hq in Hsub. rewrite (referral_names_adds child _ _ _ _ Ern i nm Hin) in Hsub. discriminate.
 Qed.
 
 
@@ -336,7 +358,7 @@ Qed.
 Lemma set_rcode_QC {T} d g A r (Post : amsg -> recorder -> Prop)
     (k : writer -> res (perr * writer) (T * writer)) (kr : recorder -> res (perr * recorder) (T * recorder)) :
   StA d g A -> RelE A r ->
-  (forall d1 r1, StA d1 g A -> d_regs d1 = d_regs d -> RelE A r1 -> QC d1 g Post (k (d_w d1)) (kr r1)) ->
+  (forall d1 r1, StA d1 g A -> d_regs d1 = d_regs d -> RelE A r1 -> rc_ns r1 = rc_ns r -> QC d1 g Post (k (d_w d1)) (kr r1)) ->
   QC d g Post (match lift_set (wi_set_rcode w_iface RCODE_NXDOMAIN (d_w d)) with Ok (_, w1) => k w1 | Err e => Err e | Panic => Panic end)
               (match lift_set (wi_set_rcode rec_iface RCODE_NXDOMAIN r) with Ok (_, r1) => kr r1 | Err e => Err e | Panic => Panic end).
 Proof.
@@ -347,7 +369,7 @@ Qed.
 Lemma set_aa_then_QC d g A r (Post : amsg -> recorder -> Prop)
     (k : writer -> res (perr * writer) (unit * writer)) (kr : recorder -> res (perr * recorder) (unit * recorder)) :
   StA d g A -> RelE A r ->
-  (forall d1 r1, StA d1 g A -> d_regs d1 = d_regs d -> RelE A r1 -> QC d1 g Post (k (d_w d1)) (kr r1)) ->
+  (forall d1 r1, StA d1 g A -> d_regs d1 = d_regs d -> RelE A r1 -> rc_ns r1 = rc_ns r -> QC d1 g Post (k (d_w d1)) (kr r1)) ->
   QC d g Post (set_aa_then w_iface k (d_w d)) (set_aa_then rec_iface kr r).
 Proof.
   intros HS HRel Hk. unfold set_aa_then. destruct (StA_set_aa d g A true HS) as (w' & E & HS'). rewrite E, rec_set_aa. cbn [lift_set].
@@ -359,12 +381,12 @@ Variable qname : zname.
 Hypothesis Hqn : good_name qname.
 
 (* ---- CNAME chains *)
-Lemma cname_C ty : forall fuel cn os d g A r, StA d g A -> RelE A r -> Gq qname g -> Forall (Pz0 5%N) (snd cn) ->
+Lemma cname_C ty : forall fuel cn os d g A r, StA d g A -> RelE A r -> rc_ns r = [] -> Gq qname g -> Forall (Pz0 5%N) (snd cn) ->
   1 <= fuel -> length os + fuel = 8 ->
   (forall o, Query.last_opt os = Some o -> good_name o /\ g_r g = Some o) ->
   QC d g RelO (follow_cname_1 w_iface negttl z fuel qname ty cn os (d_w d)) (follow_cname_1 rec_iface negttl z fuel qname ty cn os r).
 Proof.
-  induction fuel as [|fuel IH]; intros cn os d g A r HS HRel HGq Hrds Hf Hlen Hlast; [lia|].
+  induction fuel as [|fuel IH]; intros cn os d g A r HS HRel Hns0 HGq Hrds Hf Hlen Hlast; [lia|].
   cbn [follow_cname_1].
   destruct (snd cn) as [|rd rest] eqn:Ecn; [exact I|].
   inversion Hrds as [|? ? (Grd & _ & _) _]; subst. pose proof Grd as [Hrd _].
@@ -407,6 +429,7 @@ Proof.
     set (A1 := add_rrs A (sec_of SAn) [mkAR owner Standard ZoneConsts.TYPE_CNAME (z_class z) (ttl_rfc (fst cn)) rd]) in *.
     set (r1 := rec_add SAn [mk_qrr owner ZoneConsts.TYPE_CNAME (z_class z) (fst cn) rd] r).
     assert (HRel1 : RelE A1 r1) by (exact (RelE_add A r SAn [mk_qrr owner ZoneConsts.TYPE_CNAME (z_class z) (fst cn) rd] HRel)).
+    assert (Hns1 : rc_ns r1 = []) by exact Hns0.
     unfold follow_cname_2_body.
     destruct (zone_lookup_refines req apex cls z R cname ty false false Hinv) as (lr & Hz & Hs); [discriminate|].
     rewrite Hz. cbn [zl].
@@ -423,7 +446,7 @@ Proof.
       intros o Ho. rewrite last_opt_snoc in Ho. inversion Ho; subst. auto.
     - destruct G as [GP Gs]. apply (referral_C c ns d1 g1 A1 r1); auto. eapply good_name_suffix; eauto.
     - eapply QC_weaken; [apply RelE_O|]. apply (negsoa_C d1 g1 A1 r1); auto.
-    - apply (set_rcode_QC d1 g1 A1 r1); auto. intros d2 r2 HS2 _ HRel2.
+    - apply (set_rcode_QC d1 g1 A1 r1); auto. intros d2 r2 HS2 _ HRel2 _.
       eapply QC_weaken; [apply RelE_O|]. apply (negsoa_C d2 g1 A1 r2); auto.
     - exists d1, g1, A1, r1. split; [exact HS1|]. split; [reflexivity|]. split; [apply Frame_refl|]. split; [reflexivity|apply RelE_O; exact HRel1]. }
   destruct (Query.last_opt _) as [o|] eqn:Elast.
@@ -487,22 +510,22 @@ Hypothesis Hzone : in_zone apex qname = true.
 Lemma nxdomain_C d g A r : StA d g A -> RelE A r ->
   QC d g RelO (nxdomain w_iface negttl z (d_w d)) (nxdomain rec_iface negttl z r).
 Proof.
-  intros HS HRel. unfold nxdomain. apply (set_rcode_QC d g A r); auto. intros d1 r1 HS1 _ HRel1.
-  apply (set_aa_then_QC d1 g A r1); auto. intros d2 r2 HS2 _ HRel2.
+  intros HS HRel. unfold nxdomain. apply (set_rcode_QC d g A r); auto. intros d1 r1 HS1 _ HRel1 _.
+  apply (set_aa_then_QC d1 g A r1); auto. intros d2 r2 HS2 _ HRel2 _.
   eapply QC_weaken; [apply RelE_O|]. apply (negsoa_C d2 g A r2); auto.
 Qed.
 
-Lemma answer_C ty d g A r : StA d g A -> RelE A r -> Gq qname g ->
+Lemma answer_C ty d g A r : StA d g A -> RelE A r -> rc_ns r = [] -> Gq qname g ->
   QC d g RelO (answer w_iface negttl z qname ty (d_w d)) (answer rec_iface negttl z qname ty r).
 Proof.
-  intros HS HRel HGq. unfold answer.
+  intros HS HRel Hns0 HGq. unfold answer.
   destruct (zone_lookup_refines req apex cls z R qname ty true false Hinv (fun _ => Hzone)) as (lr & Hz & Hs).
   rewrite Hz. cbn [zl].
   pose proof (spec_lookup_good req apex cls R Pz0 HR _ _ _ _ _ Hs) as G.
   pose proof (spec_lookup_not_wrong req apex cls R qname ty true false Hzone) as Hnw.
   destruct lr as [s sos|cn sos|c ns|sos| |]; cbn [lookup_good norm_lookup] in *.
-  - apply (set_aa_then_QC d g A r); auto. intros d1 r1 HS1 Hr1 HRel1.
-    apply (found_C QhQname HsQname QhQname qname ty s d1 g A r1); auto; [reflexivity|].
+  - apply (set_aa_then_QC d g A r); auto. intros d1 r1 HS1 Hr1 HRel1 Hns1.
+    apply (found_C QhQname HsQname QhQname qname ty s d1 g A r1); auto; [congruence|reflexivity|].
     cbn [hs_contract]. intros m Hm. rewrite HGq in Hm. inversion Hm; subst. apply name_eq_refl.
   - destruct G as [GP _]. unfold do_cname. destruct (StA_set_aa d g A true HS) as (w' & E & HS'). rewrite E, rec_set_aa. cbn [lift_set].
     apply (QC_frame d g (mkD w' (d_regs d)) g); [split; [reflexivity|split; apply prefix_refl]|].
@@ -510,22 +533,22 @@ Proof.
     apply (cname_C ty 8 cn [] (mkD w' (d_regs d)) g A); auto; try (cbn; lia).
     intros o Ho. discriminate.
   - destruct G as [GP Gs]. apply (referral_C c ns d g A r); auto. eapply good_name_suffix; eauto.
-  - apply (set_aa_then_QC d g A r); auto. intros d1 r1 HS1 _ HRel1.
+  - apply (set_aa_then_QC d g A r); auto. intros d1 r1 HS1 _ HRel1 _.
     eapply QC_weaken; [apply RelE_O|]. apply (negsoa_C d1 g A r1); auto.
   - apply (nxdomain_C d g A r); auto.
   - congruence.
 Qed.
 
-Lemma answer_any_C d g A r : StA d g A -> RelE A r -> Gq qname g ->
+Lemma answer_any_C d g A r : StA d g A -> RelE A r -> rc_ns r = [] -> Gq qname g ->
   QC d g RelO (answer_any w_iface negttl z qname (d_w d)) (answer_any rec_iface negttl z qname r).
 Proof.
-  intros HS HRel HGq. unfold answer_any.
+  intros HS HRel Hns0 HGq. unfold answer_any.
   destruct (zone_lookup_all_refines req apex cls z R qname true false Hinv (fun _ => Hzone)) as (lr & Hz & Hs).
   rewrite Hz. cbn [zl].
   pose proof (spec_all_good req apex cls R Pz0 HR _ _ _ _ Hs) as G.
   pose proof (spec_lookup_all_not_wrong req apex cls R qname true false Hzone) as Hnw.
   destruct lr as [rrsets sos|c ns| |]; cbn [all_good norm_all] in *.
-  - apply (set_aa_then_QC d g A r); auto. intros d1 r1 HS1 _ HRel1.
+  - apply (set_aa_then_QC d g A r); auto. intros d1 r1 HS1 _ HRel1 _.
     pose proof (any_loop_C rrsets 0 d1 g A r1 HS1 HRel1 HGq G) as Q.
     destruct (any_loop w_iface z qname rrsets 0 (d_w d1)) as [[n w2]|[e w2]|]; cbn [QC] in Q |- *; auto.
     destruct Q as (d2 & g2 & A2 & r2 & HS2 & Hw2 & F2 & Er2 & HRel2). rewrite Er2. subst w2.
@@ -569,8 +592,9 @@ Theorem respond_w_vs_ideal buf tcp id rd qname qtype qclass edns limit :
         handle_non_axfr_query rec_iface negttl z qname qtype tcp rec_empty = Some r /\
         Forall2 (rr_rel xparts) (map q2a (rc_an r)) (m_an m) /\
         Forall2 (rr_rel xparts) (map q2a (rc_ns r)) (m_ns m) /\
-        exists M X O dsM dsX dsP,
-          map q2a (rc_ar r) = M ++ O /\ Sub X O /\
+        exists M X Oq dsM dsX dsP,
+          map q2a (rc_ar r) = M ++ map q2a Oq /\ Sub X (map q2a Oq) /\
+          Forall (fun q => ~ in_bailiwick (rc_ns r) q) Oq /\
           m_ar m = dsM ++ dsX ++ dsP /\ Forall2 (rr_rel xparts) M dsM /\ Forall2 (rr_rel xparts) X dsX /\
           forallb is_pseudo dsP = true
     | _ => True
@@ -602,11 +626,11 @@ Proof.
                  (answering w_iface qname qtype w) (answering rec_iface qname qtype rec_empty)).
   { unfold answering. destruct (qtype =? QTYPE_ANY)%N.
     - apply (answer_any_C reqf apex cls R z Hinv HR Hapex Hclass Pop_t (fun _ _ _ _ _ _ _ _ => I) (fun _ _ _ _ _ _ _ _ => I)
-               (fun _ => I) I negttl (mkD w0 []) g0 am0 qname Gq Hz (mkD w []) (g_prepared qname) Ap rec_empty Sp HRel0 eq_refl).
+               (fun _ => I) I negttl (mkD w0 []) g0 am0 qname Gq Hz (mkD w []) (g_prepared qname) Ap rec_empty Sp HRel0 eq_refl eq_refl).
     - apply (answer_C reqf apex cls R z Hinv HR Hapex Hclass Pop_t (fun _ _ _ _ _ _ _ _ => I) (fun _ _ _ _ _ _ _ _ => I)
-               (fun _ => I) I negttl (mkD w0 []) g0 am0 qname Gq Hz qtype (mkD w []) (g_prepared qname) Ap rec_empty Sp HRel0 eq_refl). }
+               (fun _ => I) I negttl (mkD w0 []) g0 am0 qname Gq Hz qtype (mkD w []) (g_prepared qname) Ap rec_empty Sp HRel0 eq_refl eq_refl). }
   rewrite Edr in Q. cbn [QC] in Q.
-  destruct Q as (d3 & g3 & A3 & r3 & (ops & outs & L & Rall & Hi & HA) & Hw3 & _ & Er & ((Hm3 & Han & Hns) & (M & X & O & Har & Hro & HsubX))).
+  destruct Q as (d3 & g3 & A3 & r3 & (ops & outs & L & Rall & Hi & HA) & Hw3 & _ & Er & ((Hm3 & Han & Hns) & (M & X & O & Har & Hro & HsubX & HnoB))).
   destruct (Reach_run Pop_t _ _ _ _ _ _ Rall) as (Hrun & Hrc & F1 & F2 & F3 & F4 & Hlen).
   destruct (MsgWriterStepP.finish_ok (fun x => x) d3 g3 L Hi) as (wF & LF & EF & _).
   exists (w_cursor wF), (w_buf wF).
@@ -625,7 +649,7 @@ Proof.
   rewrite Har in Hdar. rewrite <- app_assoc in Hdar.
   apply Forall2_app_inv_l in Hdar as (dM & drest & HM & Hrest & Eq).
   apply Forall2_app_inv_l in Hrest as (dX & dP & HX & HP & Eq2).
-  exists M, X, O, dM, dX, dP. split; [exact Hro|]. split; [exact HsubX|]. split; [rewrite Eq, Eq2; reflexivity|].
+  exists M, X, O, dM, dX, dP. split; [exact Hro|]. split; [exact HsubX|]. split; [exact HnoB|]. split; [rewrite Eq, Eq2; reflexivity|].
   split; [exact HM|]. split; [exact HX|].
   assert (Hts : h_tsig (hreplay ah0 ops outs) = None) by (apply tsig_t_replay; [exact F4|reflexivity]).
   unfold pseudo_of in HP. rewrite Hts, app_nil_r in HP.
@@ -656,8 +680,9 @@ Theorem respond_w_vs_resolve reqf apex cls wide recs z buf tcp id rd qname qtype
         ResolveRepr.norm_rec r = ResolveS.resolve reqf apex cls (accepted apex cls recs) qname qtype /\
         Forall2 (rr_rel xparts) (map q2a (rc_an r)) (m_an m) /\
         Forall2 (rr_rel xparts) (map q2a (rc_ns r)) (m_ns m) /\
-        exists M X O dsM dsX dsP,
-          map q2a (rc_ar r) = M ++ O /\ Sub X O /\
+        exists M X Oq dsM dsX dsP,
+          map q2a (rc_ar r) = M ++ map q2a Oq /\ Sub X (map q2a Oq) /\
+          Forall (fun q => ~ in_bailiwick (rc_ns r) q) Oq /\
           m_ar m = dsM ++ dsX ++ dsP /\ Forall2 (rr_rel xparts) M dsM /\ Forall2 (rr_rel xparts) X dsX /\
           forallb is_pseudo dsP = true
     | _ => True
